@@ -16,7 +16,7 @@ def variant(case, v):
     c["sched"] = r.randrange(1 << 30)
     for s in c["steps"]:
         if s["k"] == "xf":
-            s["yields"] = r.choice([0, 0, 1, 2, 3, 5])
+            s["yields"] = r.choice([0, 0, 1, 2, 3, 5, 12, 30])
     if v != 0:
         for p in c["inputs"]:
             r.shuffle(c["inputs"][p])
@@ -54,7 +54,7 @@ class C05(Prop):
     ASSUMPTIONS = ("shape hypothesis: all input ports of a tag-grouping step carry the same tags, each once",)
 
     def gen(self, rng, tier):
-        n_tg, n_sg = {"quick": (70, 40), "thorough": (700, 400), "extended": (400, 200)}[tier]
+        n_tg, n_sg = {"quick": (70, 40), "thorough": (300, 150), "extended": (200, 100)}[tier]
         cases = []
         for _ in range(n_tg):
             c = netlib.gen_tg_net(rng, big=(tier != "quick"), fail_p=0.0, unequal_p=0.0, quirk_p=0.1, hold_p=0.0)
